@@ -30,6 +30,7 @@ struct SdoDict {
     }
     void build(const Plan &p, int nSsdo, bool constSdoIds = true) {
         add_mandatory(specs, nSsdo); (void)constSdoIds;
+        if (p.c("poolfull", -1) >= 0) add_typed(specs, T_HBPROD, 0x1017, 0, CO_OBJ_____RW, 0);   // C04 plans: a writable entry whose type needs a timer slot
         uint16_t i = 0x2000;
         addInt(i, 0, 1, CO_OBJ_D___R_, 9);
         addInt(i, 1, 1, CO_OBJ_____RW, 0x11); addInt(i, 2, 2, CO_OBJ_____RW, 0x2222); addInt(i, 3, 4, CO_OBJ_____RW, 0x33333333);
@@ -131,8 +132,16 @@ struct Session {
     bool muxOk(const Frame &f) const { return f.u16(1) == idx && f.d[3] == sub; }
 
     // 'delivered': 0 = frame was lost, 1 = once, 2 = twice.  resp = frames on the server's TxId.
-    void onResponses(const std::vector<Frame> &resp, int delivered, const std::vector<uint8_t> &truth) {
+    // firstFail >= 0: resp[firstFail] (and possibly later ones) were built by the server but refused by its CAN driver, the client never saw them
+    bool lostResponse = false;
+    void onResponses(const std::vector<Frame> &respAll, int delivered, const std::vector<uint8_t> &truth, int firstFail = -1) {
         Ph was = ph;
+        bool burst = (was == P_BLK_START || was == P_BLK_ACK) && !(was == P_BLK_ACK && sawLastAcked);
+        if (firstFail >= 0 && !burst) {   // the one answer the client waits for never arrives: it times out and aborts (whatever the answer was)
+            if (was == P_ABORT) { ph = P_DONE; return; }
+            lostResponse = true; abortedByClient = true; ph = P_ABORT; return;
+        }
+        const std::vector<Frame> &resp = respAll;
         // generic: an abort from the server ends the session
         for (auto &f : resp) if (isAbort(f)) {
             if (resp.size() != 1) { fail("abort-plus-frames", "abort together with other frames"); return; }
@@ -231,10 +240,11 @@ struct Session {
                 if (((f.d[0] & 0x80) != 0) != isLast) { fail("blkup-cbit", "c bit " + std::to_string(f.d[0] >> 7) + " at offset " + std::to_string(o2) + " of " + std::to_string(truth.size())); return; }
                 last = isLast;
             }
-            if (!last && resp.size() != curBlk) { fail("blkup-short-block", std::to_string(resp.size()) + " segments of " + std::to_string(curBlk) + " without last flag"); return; }
+            if (!last && resp.size() != curBlk && firstFail < 0) { fail("blkup-short-block", std::to_string(resp.size()) + " segments of " + std::to_string(curBlk) + " without last flag"); return; }
             // choose acknowledge position
             int sel = subBlockIdx < acks.size() ? acks[subBlockIdx].first : 1000; int nb = subBlockIdx < acks.size() ? acks[subBlockIdx].second : reqBlk; subBlockIdx++;
-            int sent = (int)resp.size(); int k = sel >= 1000 ? sent : sel < 0 ? std::max(0, sent + sel) : std::min(sel, sent);
+            int sent = (int)resp.size(); if (firstFail >= 0) { sent = firstFail; last = false; }   // the client received the segments before the refused one; what follows a gap is out of sequence
+            int k = sel >= 1000 ? sent : sel < 0 ? std::max(0, sent + sel) : std::min(sel, sent);
             if (subBlockIdx > 40) k = sent;      // bounded: stop losing after 40 sub-blocks
             pendingAck = (uint8_t)k; pendingBlk = (uint8_t)(nb < 1 ? 1 : nb > 127 ? 127 : nb);
             uint32_t bytesAcked = 0; { uint32_t o3 = ackedOff; for (int i = 0; i < k; i++) { uint32_t rem = (uint32_t)truth.size() - o3; uint32_t n = rem > 7 ? 7 : rem; o3 += n; } bytesAcked = o3 - ackedOff; }
